@@ -18,11 +18,13 @@ def cfgOf (signing : Bool) : FCfg :=
 
 structure St where
   cfg : FCfg
+  canSign : Bool
+  nextFresh : Nat
   a : AState
   /-- content of every command delivered in this case -> the tokens it was described with -/
   labels : List ((Nat × Nat × Nat × Sig) × (String × String))
 
-def St.init : St := { cfg := cfgOf true, a := { f := FState.empty, sl := .awake }, labels := [] }
+def St.init : St := { cfg := cfgOf true, canSign := false, nextFresh := 2^63, a := { f := FState.empty, sl := .awake }, labels := [] }
 
 def parseTs (tok : String) : Option Nat :=
   if tok.startsWith "r" then
@@ -32,15 +34,22 @@ def parseTs (tok : String) : Option Nat :=
   else if tok.startsWith "a" then (tok.drop 1).toString.toNat?
   else none
 
-def parseSig (tok : String) (o i t : Nat) : Option Sig :=
+def otherKind : Kind → Kind
+  | .sleep => .wake
+  | .wake => .sleep
+
+/-- `k` = kind of the frame that carries the command.  `xkind`: the key holder issued (and signed)
+    a command of the OTHER kind with these fields; the signature bytes are transplanted. -/
+def parseSig (tok : String) (k : Kind) (o i t : Nat) : Option Sig :=
   match tok with
   | "zero" => some .zero
-  | "valid" => some (.signed 0 o i t)
+  | "valid" => some (.signed 0 k o i t)
+  | "xkind" => some (.signed 0 (otherKind k) o i t)
   | "bad" => some .garbage
-  | "otherkey" => some (.signed 1 o i t)
-  | "wrongorigin" => some (.signed 0 (o + 1) i t)
-  | "wrongid" => some (.signed 0 o ((i + 1) % 2^64) t)
-  | "wrongts" => some (.signed 0 o i ((t + 1) % 2^64))
+  | "otherkey" => some (.signed 1 k o i t)
+  | "wrongorigin" => some (.signed 0 k (o + 1) i t)
+  | "wrongid" => some (.signed 0 k o ((i + 1) % 2^64) t)
+  | "wrongts" => some (.signed 0 k o i ((t + 1) % 2^64))
   | _ => none
 
 def parseSeen (tok : String) : Option (List Nat) :=
@@ -67,92 +76,159 @@ def showSt : SleepSt → String
 def showSeen (l : List Nat) : String :=
   if l.isEmpty then "-" else ".".intercalate (l.map toString)
 
+/-- ids of locally issued commands (`TriggerSleep`/`TriggerWake` use the clock) are printed as `fresh`;
+    a transplanted signature (`xkind`) is byte-for-byte a valid one and is printed as `valid`. -/
+def freshBase : Nat := 2^63
+
 def showItem (labels : List ((Nat × Nat × Nat × Sig) × (String × String))) (x : Nat × Kind × Cmd) : String :=
   let (p, k, c) := x
   let (tl, sl) := match labels.find? (fun e => e.1 == (c.origin, c.id, c.ts, c.sig)) with
     | some e => e.2
     | none => (s!"?{c.ts}", "?")
+  let sl := if sl == "xkind" then "valid" else sl
   let kt := match k with | .sleep => "S" | .wake => "W"
-  s!"{p}:{kt}:{c.origin}:{c.id}:{tl}:{sl}:{showSeen c.seenBy}"
+  let idTok := if c.id ≥ freshBase then "fresh" else toString c.id
+  s!"{p}:{kt}:{c.origin}:{idTok}:{tl}:{sl}:{showSeen c.seenBy}"
 
-def showOut (s : St) (sl : SleepSt) (out : Outcome) : String :=
-  let items := sortStrings (out.sends.map (showItem s.labels))
+def showOut (labels : List ((Nat × Nat × Nat × Sig) × (String × String))) (sl : SleepSt) (out : Outcome) : String :=
+  let items := (sortStrings (out.sends.map (showItem labels))).eraseDups
   let fwd := if items.isEmpty then "-" else ",".intercalate items
   s!"st={showSt sl} sl={out.onSleep} wk={out.onWake} fwd={fwd}"
+
+def mkCmd (k : Kind) (origin id ts sig seen : String) : Option (Cmd × (String × String)) :=
+  match origin.toNat?, id.toNat?, parseTs ts, parseSeen seen with
+  | some o, some i, some t, some sb =>
+    match parseSig sig k o i t with
+    | some sg => some ({ origin := o, id := i, ts := t, sig := sg, seenBy := sb }, (ts, sig))
+    | none => none
+  | _, _, _, _ => none
+
+def labelOf (c : Cmd) (toks : String × String) : (Nat × Nat × Nat × Sig) × (String × String) :=
+  ((c.origin, c.id, c.ts, c.sig), toks)
 
 def step (s : St) (line : String) : St × String :=
   match tokens line with
   | ["reset", sg, asl] =>
-    ({ cfg := cfgOf (sg == "1"), a := { f := FState.empty, sl := if asl == "1" then .sleeping else .awake }, labels := [] }, "ok")
+    ({ cfg := cfgOf (sg != "0"), canSign := sg == "2", nextFresh := freshBase,
+       a := { f := FState.empty, sl := if asl == "1" then .sleeping else .awake }, labels := [] }, "ok")
   | ["d", via, from_, origin, id, ts, sig, seen] =>
-    match parseVia via, from_.toNat?, origin.toNat?, id.toNat?, parseTs ts, parseSeen seen with
-    | some via, some from_, some o, some i, some t, some sb =>
-      match parseSig sig o i t with
+    match parseVia via, from_.toNat? with
+    | some via, some from_ =>
+      match mkCmd via.kind origin id ts sig seen with
       | none => (s, "bad-op")
-      | some sg =>
-        let c : Cmd := { origin := o, id := i, ts := t, sig := sg, seenBy := sb }
-        let s1 := { s with labels := s.labels ++ [((o, i, t, sg), (ts, sig))] }
+      | some (c, toks) =>
+        let labels := s.labels ++ [labelOf c toks]
         let (a', out) := deliver idealV s.cfg s.a nowNs via from_ c
-        ({ s1 with a := a' }, showOut s1 a'.sl out)
-    | _, _, _, _, _, _ => (s, "bad-op")
+        ({ s with a := a', labels }, showOut labels a'.sl out)
+    | _, _ => (s, "bad-op")
+  | ["dq", from_, o1, i1, t1, g1, b1, o2, i2, t2, g2, b2] =>
+    -- one QUEUED_STATE frame carrying a sleep command AND a wake command: applied in that order
+    match from_.toNat?, mkCmd .sleep o1 i1 t1 g1 b1, mkCmd .wake o2 i2 t2 g2 b2 with
+    | some from_, some (c1, k1), some (c2, k2) =>
+      let labels := s.labels ++ [labelOf c1 k1, labelOf c2 k2]
+      let (a1, out1) := deliver idealV s.cfg s.a nowNs .queuedSleep from_ c1
+      let (a2, out2) := deliver idealV s.cfg a1 nowNs .queuedWake from_ c2
+      let out : Outcome := { Outcome.none with onSleep := out1.onSleep + out2.onSleep, onWake := out1.onWake + out2.onWake,
+                                               sends := out1.sends ++ out2.sends }
+      ({ s with a := a2, labels }, showOut labels a2.sl out)
+    | _, _, _ => (s, "bad-op")
+  | ["trig", k] =>
+    match (if k == "s" then some Kind.sleep else if k == "w" then some Kind.wake else none) with
+    | none => (s, "bad-op")
+    | some k =>
+      let c := issued s.canSign s.cfg nowNs k s.nextFresh
+      let labels := s.labels ++ [labelOf c ("now", if s.canSign then "valid" else "zero")]
+      let (a', out) := trigger s.canSign s.cfg s.a nowNs k s.nextFresh
+      ({ s with a := a', labels, nextFresh := s.nextFresh + 1 }, showOut labels a'.sl out)
   | ["peer", p] =>
     match p.toNat? with
     | some p =>
       let (f', sends) := onPeerConnected idealV s.cfg s.a.f nowNs p
       let out : Outcome := { Outcome.none with sends := sends.map fun (q, c) => (q, Kind.wake, c) }
-      ({ s with a := { s.a with f := f' } }, showOut s s.a.sl out)
+      ({ s with a := { s.a with f := f' } }, showOut s.labels s.a.sl out)
     | none => (s, "bad-op")
   | _ => (s, "bad-op")
 
 /-! Executable statement of C28 on the implementation's own answers (mode `spec`): with a signing
     key configured, an answer that shows a state change, a callback or a forwarded frame is allowed
-    only for a command that is validly signed (ideal signatures) and stamped inside the window. -/
+    only for a command carrying a signature the key holder made for THIS kind of command over its
+    origin, id and timestamp (ideal signatures), stamped inside the window. -/
 
 structure SpecSt where
   signing : Bool
+  canSign : Bool
   st : String          -- state token of the previous answer in this case
-  admissibleSeen : List (Nat × Nat)  -- (origin,id) of admissible commands delivered so far (pending-wake path)
+  xkind : List (Nat × Nat)  -- (origin,id) of commands delivered with a transplanted (other-kind) signature
 
-def SpecSt.init : SpecSt := { signing := true, st := "st=AWAKE", admissibleSeen := [] }
+def SpecSt.init : SpecSt := { signing := true, canSign := false, st := "st=AWAKE", xkind := [] }
 
-def admissible (t : Nat) (sg : Sig) (o i : Nat) : Bool :=
-  idealV o i t sg && decide (((nowSec : Int) - 297 ≤ (t : Int)) ∧ ((t : Int) ≤ (nowSec : Int) + 297))
+def inWin (t : Nat) : Bool := decide (((nowSec : Int) - 297 ≤ (t : Int)) ∧ ((t : Int) ≤ (nowSec : Int) + 297))
+
+/-- (admissible for its kind, admissible for the code's kind-blind verifier) -/
+def classify (k : Kind) (origin id ts sig : String) : Option (Bool × Bool × Nat × Nat) :=
+  match origin.toNat?, id.toNat?, parseTs ts with
+  | some o, some i, some t =>
+    match parseSig sig k o i t with
+    | some sg => some (idealKV k o i t sg && inWin t, idealV o i t sg && inWin t, o, i)
+    | none => none
+  | _, _, _ => none
+
+def kindOfVia (via : String) : Kind := if via == "fs" || via == "qs" then .sleep else .wake
 
 def specStep (s : SpecSt) (line : String) (implOut : String) : SpecSt × String :=
   if implOut.startsWith "panic" || implOut.startsWith "crash" then (s, "fail crashed") else
   match tokens line, tokens implOut with
   | ["reset", sg, asl], _ =>
-    ({ signing := sg == "1", st := if asl == "1" then "st=SLEEPING" else "st=AWAKE", admissibleSeen := [] }, "ok")
+    ({ signing := sg != "0", canSign := sg == "2", st := if asl == "1" then "st=SLEEPING" else "st=AWAKE", xkind := [] }, "ok")
   | ["d", via, _, origin, id, ts, sig, _], [st, sl, wk, fwd] =>
-    match origin.toNat?, id.toNat?, parseTs ts with
-    | some o, some i, some t =>
-      match parseSig sig o i t with
-      | none => (s, "ok")
-      | some sg =>
-        let ok := admissible t sg o i
-        let acted := st != s.st || sl != "sl=0" || wk != "wk=0" || fwd != "fwd=-"
-        let s' := { s with st := st, admissibleSeen := if ok then (o, i) :: s.admissibleSeen else s.admissibleSeen }
-        if s.signing && acted && !ok then
-          (s', if via == "qs" || via == "qw" then "fail queued-command-admitted-without-valid-signature"
-               else if !idealV o i t sg then "fail command-admitted-without-valid-signature"
-               else "fail command-admitted-outside-timestamp-window")
-        else (s', "ok")
-    | _, _, _ => (s, "ok")
-  | ["peer", _], [st, _, _, fwd] =>
-    -- forwarded pending wake: every item must describe an admissible command delivered earlier
-    if !s.signing || fwd == "fwd=-" then ({ s with st := st }, "ok") else
+    match classify (kindOfVia via) origin id ts sig with
+    | none => ({ s with st := st }, "ok")
+    | some (okKind, okBlind, o, i) =>
+      let acted := st != s.st || sl != "sl=0" || wk != "wk=0" || fwd != "fwd=-"
+      let s' := { s with st := st, xkind := if sig == "xkind" then (o, i) :: s.xkind else s.xkind }
+      if s.signing && acted && !okKind then
+        (s', if okBlind then "fail cross-type-signature-accepted"
+             else if via == "qs" || via == "qw" then "fail queued-command-admitted-without-valid-signature"
+             else if sig != "valid" && sig != "xkind" then "fail command-admitted-without-valid-signature"
+             else "fail command-admitted-outside-timestamp-window")
+      else (s', "ok")
+  | ["dq", _, o1, i1, t1, g1, _, o2, i2, t2, g2, _], [st, sl, wk, fwd] =>
+    match classify .sleep o1 i1 t1 g1, classify .wake o2 i2 t2 g2 with
+    | some (k1, b1, oo1, ii1), some (k2, b2, oo2, ii2) =>
+      let s' := { s with st := st, xkind := (if g1 == "xkind" then [(oo1, ii1)] else []) ++ (if g2 == "xkind" then [(oo2, ii2)] else []) ++ s.xkind }
+      let sleepActed := sl != "sl=0" || (fwd.splitOn ":S:").length > 1
+      let wakeActed := wk != "wk=0" || (fwd.splitOn ":W:").length > 1
+      if !s.signing then (s', "ok")
+      else if sleepActed && !k1 then (s', if b1 then "fail cross-type-signature-accepted" else "fail queued-command-admitted-without-valid-signature")
+      else if wakeActed && !k2 then (s', if b2 then "fail cross-type-signature-accepted" else "fail queued-command-admitted-without-valid-signature")
+      else (s', "ok")
+    | _, _ => ({ s with st := st }, "ok")
+  | ["trig", k], [st, _, _, fwd] =>
+    -- issuer side: with a private key every frame flooded must carry a valid signature, this agent as origin, the current time
+    let s' := { s with st := st }
+    if fwd == "fwd=-" then (s', "ok") else
     let items := (fwd.drop 4).toString.splitOn ","
+    let want := if k == "s" then "S" else "W"
     let bad := items.any fun it =>
       match it.splitOn ":" with
-      | [_, _, o, i, tl, sl, _] =>
-        match o.toNat?, i.toNat?, parseTs tl with
-        | some o, some i, some t =>
-          match parseSig sl o i t with
-          | some sg => !admissible t sg o i
-          | none => true
-        | _, _, _ => true
+      | [_, ty, o, _, tl, sl, sb] => ty != want || o != "0" || tl != "now" || sb != "0" || (s.canSign && sl != "valid") || (!s.canSign && sl != "zero")
       | _ => true
-    ({ s with st := st }, if bad then "fail pending-wake-forwarded-inadmissible" else "ok")
+    (s', if bad then "fail issued-command-malformed-or-not-validly-signed" else "ok")
+  | ["peer", _], [st, _, _, fwd] =>
+    -- forwarded pending wake: every item must describe a command admissible as a WAKE command
+    if !s.signing || fwd == "fwd=-" then ({ s with st := st }, "ok") else
+    let items := (fwd.drop 4).toString.splitOn ","
+    let verdicts := items.map fun it =>
+      match it.splitOn ":" with
+      | [_, _, o, i, tl, sl, _] =>
+        if o == "0" && i == "fresh" then (if sl == "valid" && tl == "now" then "ok" else "bad")
+        else match classify .wake o i tl sl with
+          | some (okKind, _, oo, ii) => if !okKind then "bad" else if s.xkind.contains (oo, ii) then "xkind" else "ok"
+          | none => "bad"
+      | _ => "bad"
+    ({ s with st := st },
+      if verdicts.contains "bad" then "fail pending-wake-forwarded-inadmissible"
+      else if verdicts.contains "xkind" then "fail cross-type-signature-forwarded" else "ok")
   | _, _ => (s, "ok")
 
 def main (args : List String) : IO Unit :=
